@@ -1611,3 +1611,32 @@ func CasgOrder() []Case {
 	}
 	return out
 }
+
+// RzswPrec is the family for a bounds-checked dynamic access used as an operand of another operator: the guarded form
+// a backend emits for it must bind tighter than the surrounding operator.
+func RzswPrec() []Case {
+	var out []Case
+	inA, outA := wg.Arr(wg.I32, 4), wg.Arr(wg.I32, 2)
+	in := func(i int) wg.N { return wg.Load(wg.RIdx(wg.RVar("inp", inA), wg.LitI(int32(i)), wg.I32)) }
+	st := func(i int, e wg.N) wg.N { return wg.Asg(wg.RIdx(wg.RVar("out", outA), wg.LitI(int32(i)), wg.I32), e) }
+	v3 := wg.Vec(3, wg.I32)
+	arr := wg.Arr(wg.I32, 3)
+	idx := wg.Bin("&", wg.I32, in(3), wg.LitI(1))
+	mk := func(desc string, body []wg.N) {
+		globals := []wg.N{wg.Global("inp", "storage", "r", inA, 0, 0, wg.None), wg.Global("out", "storage", "rw", outA, 0, 1, wg.None)}
+		c := Case{Family: "rzswprec", Desc: "rzswprec " + desc, Prog: wg.Program(nil, nil, globals, []wg.N{wg.Entry("main", nil, body)})}
+		for _, r := range [][]int32{{5, 6, 7, 0}, {5, 6, 7, 1}, {-1, 255, 3, 1}} {
+			c.Inputs = append(c.Inputs, [][]int32{r, {0, 0}})
+		}
+		out = append(out, c)
+	}
+	vecv := wg.Ctor(v3, in(0), in(1), in(2))
+	// let-bound vector value, dynamic index, result masked / multiplied
+	mk("let-vector and", []wg.N{wg.Let("v", vecv), st(0, wg.Bin("&", wg.I32, wg.Idx(wg.I32, wg.Id("v", v3), idx), wg.LitI(3)))})
+	mk("let-vector mul", []wg.N{wg.Let("v", vecv), st(0, wg.Bin("*", wg.I32, wg.Idx(wg.I32, wg.Id("v", v3), idx), wg.LitI(2)))})
+	mk("var-vector add", []wg.N{wg.Var("v", v3, vecv), st(0, wg.Bin("+", wg.I32, wg.Load(wg.RIdx(wg.RVar("v", v3), idx, wg.I32)), wg.LitI(100)))})
+	mk("var-array sub-right", []wg.N{wg.Var("a", arr, wg.Ctor(arr, in(0), in(1), in(2))),
+		st(0, wg.Bin("-", wg.I32, wg.LitI(100), wg.Load(wg.RIdx(wg.RVar("a", arr), idx, wg.I32))))})
+	mk("control plain", []wg.N{wg.Let("v", vecv), st(0, wg.Idx(wg.I32, wg.Id("v", v3), idx))})
+	return out
+}
